@@ -1726,12 +1726,21 @@ func (t *tScreen) parseRune(buf *bytes.Buffer, evs *[]Event) (bool, bool) {
 	utf := make([]byte, 12)
 	for l := 1; l <= len(b); l++ {
 		t.decoder.Reset()
-		nOut, nIn, e := t.decoder.Transform(utf, b[:l], true)
+		// More input may follow b[:l], so this is not EOF.  Told that it
+		// is, the multi-byte decoders (GBK, Big5, Shift_JIS, ...) turn a
+		// lead byte whose trail byte is still missing into U+FFFD instead
+		// of reporting ErrShortSrc, and the character is lost.
+		nOut, nIn, e := t.decoder.Transform(utf, b[:l], false)
 		if e == transform.ErrShortSrc {
 			continue
 		}
 		if nOut != 0 {
-			r, _ := utf8.DecodeRune(utf[:nOut])
+			r, sz := utf8.DecodeRune(utf[:nOut])
+			if r == utf8.RuneError && sz < nOut {
+				// An invalid lead byte, and the decoder went on with
+				// the bytes after it: discard only the lead byte.
+				nIn = 1
+			}
 			if r != utf8.RuneError {
 				mod := ModNone
 				if t.escaped {
